@@ -16,6 +16,23 @@ observed_seti_negative_offset_addresses_neighbour, never a violation):
 Synth.seti with a negative index addresses the control before the array.
 Traffic is captured at the OSC interface (NRT score bytes / RT `_send`
 recorder) and decoded with vf/osc.py.
+
+Use after free (round 7; the class the workload did not reach before - freed
+objects were only ever freed again or, control buses, asked for an
+index-based method).  A freed Bus / Buffer owns no id, so "mentions only ids
+the client has allocated" means no command may name one on its behalf, in
+int form or as a bus mapping symbol ('c3', 'a2').  Histories now keep using
+freed objects of every kind: Bus.as_map() before and after free() (the symbol
+is cached by the object: asked while alive, asked again when freed), all
+index-based ControlBus methods, all Buffer methods, freed buses handed to
+Node.map/mapa/mapn/mapan, freed buffers as copy destination, freed objects
+and `bus.as_map()` expressions among Synth / Node.set arguments, map symbols
+in raw /n_set and /n_setn commands, freed nodes (which keep their id).
+Oracle: methods the classes guard themselves must raise their documented
+exception; everywhere else the call may raise or stay silent but must not
+send (key .../<method>(freed)/unexpected-message); a freed object in a value
+slot may travel as nil 0; Bus.as_map() of a live bus returns 'c'|'a' + its
+index; the id ledger resolves the symbols on the wire too.
 """
 
 from vf.common import iter_cases, case_rng, h64, split, short_tb
@@ -25,10 +42,12 @@ RULE = ("seeded random histories (3-90 operations) over a pool of synths, "
         "groups, par-groups, buffers (single, consecutive, read, cue) and "
         "control/audio buses: every constructor form, add action and target "
         "form; set/setn/fill/map*/release/run/move*/free; buffer and bus "
-        "commands; Buffer.free_all; double frees; 0-8 operation bind() blocks of "
+        "commands; Buffer.free_all; double frees; use of freed buses, buffers and "
+        "nodes as receiver and as argument (as_map() before and after free); "
+        "0-8 operation bind() blocks of "
         "which 40 % raise at a random point.  Non-trivial = the history creates "
         "and frees objects and contains a bind block, a consecutive group, "
-        "free_all or a double free; distinct = hash of the program")
+        "free_all, a double free or a use after free; distinct = hash of the program")
 ASSUMPTIONS = [
     "vf/cmdref.py and vf/model_cmds.py transcribe the Server Command Reference "
     "and the SuperCollider class documentation correctly",
@@ -43,6 +62,14 @@ ASSUMPTIONS = [
     "in proposed_fixes/C17-seti-negative-offset.md",
     "objects created inside a block that raised are never used again "
     "(their creation command was never sent)",
+    "use after free: BusAlreadyFreed / BufferAlreadyFreed / BusException('bus not "
+    "allocated') are the documented reactions where the classes have them; "
+    "elsewhere raising (Bus/Buffer exception families, TypeError, ValueError) or "
+    "doing nothing are both accepted, sending a command is not; a freed object "
+    "in a control *value* slot may be sent as nil = int 0 (sclang) - counted as "
+    "observed_freed_object_in_value_slot_sent_as_nil_0, never a violation; a freed "
+    "Node object keeps its id (same commands expected); sub-buses of a freed "
+    "parent and buffers freed by Buffer.free_all (objects not told) are not used",
 ]
 MIN_COUNTERS = {
     'quick': {'ops_compared': 50_000, 'messages_grammar_checked': 40_000,
@@ -57,6 +84,12 @@ MIN_COUNTERS = {
               'histories_with_node_id_wrap_configuration': 500,
               'stream_cases_with_chunks_inside_block': 15,
               'stream_cases_with_chunks_outside_block': 15,
+              'calls_on_freed_objects_checked': 2000,
+              'as_map_after_free_with_cached_symbol_checked': 300,
+              'return_values_checked': 3000,
+              'map_symbol_mentions_checked': 1500,
+              'freed_object_in_value_slot_checked': 300,
+              'ops_on_freed_nodes_checked': 800,
               'oracle_selftests': 1},
     'thorough': {'ops_compared': 1_500_000, 'messages_grammar_checked': 1_500_000,
                  'id_mentions_checked': 1_500_000, 'ledger_checks': 1_500_000,
@@ -70,6 +103,12 @@ MIN_COUNTERS = {
                  'histories_with_node_id_wrap_configuration': 10_000,
                  'stream_cases_with_chunks_inside_block': 400,
                  'stream_cases_with_chunks_outside_block': 400,
+                 'calls_on_freed_objects_checked': 100_000,
+                 'as_map_after_free_with_cached_symbol_checked': 10_000,
+                 'return_values_checked': 100_000,
+                 'map_symbol_mentions_checked': 40_000,
+                 'freed_object_in_value_slot_checked': 8000,
+                 'ops_on_freed_nodes_checked': 30_000,
                  'oracle_selftests': 1},
 }
 
@@ -247,6 +286,7 @@ def run_shard(spec, acc):
         special = (any('bind' in it for it in prog)
                    or any(o['op'] in ('free_all', 'bufgroup_free') for o in flat)
                    or stats.get('double_free_buffer') or stats.get('double_free_bus')
+                   or stats.get('use_after_free') or stats.get('freed_node_ops')
                    or any(o['op'] == 'buffer' and o['ctor'] == 'consecutive'
                           for o in flat))
         acc.case(sig, nontrivial=bool(creates and frees and special))
@@ -269,6 +309,10 @@ def run_shard(spec, acc):
                 acc.count('histories_client_nonzero')
         for a in stats['add_actions']:
             acc.count(f'add_action:{a}')
+        if stats.get('use_after_free'):
+            acc.count('histories_with_use_after_free')
+        if stats.get('stale_cached_symbol'):
+            acc.count('histories_asking_freed_bus_for_cached_symbol')
         if stats.get('seti'):
             acc.count('histories_with_seti')
         if stats.get('dict_with_sequence_value'):
